@@ -6,6 +6,7 @@ import (
 	"fmt"
 	"hash/crc32"
 	"os"
+	"runtime/debug"
 	"testing"
 
 	segment "github.com/blevesearch/scorch_segment_api/v2"
@@ -64,6 +65,21 @@ func checkFooter(prop string, data []byte, numDocs uint64, chunkMode uint32) *Vi
 	nd := binary.BigEndian.Uint64(data[len(data)-zap.FooterSize:])
 	if nd != numDocs {
 		return violation(prop, "footer/numdocs", "document count field %d, want %d", nd, numDocs)
+	}
+	return nil
+}
+
+// afterClose re-reads an observation taken from a segment that has been closed since: everything in
+// it (field names, terms, values) was handed out as values of the caller's and must still be readable.
+func afterClose(prop string, memObs, mmObs *spec.Obs) (v *Violation) {
+	defer debug.SetPanicOnFault(debug.SetPanicOnFault(true))
+	defer func() {
+		if r := recover(); r != nil {
+			v = violation(prop, "mmap/value-dangles-after-close", "reading what the opened segment had handed out, after its Close, faulted: %v", r)
+		}
+	}()
+	if d := spec.Diff(memObs, mmObs, spec.DiffOpts{}); d != "" {
+		return violation(prop, "mmap/value-changed-after-close", "what the opened segment had handed out changed after its Close: %s", d)
 	}
 	return nil
 }
@@ -138,7 +154,12 @@ func runPersistCase(c persistCase) *Violation {
 	if err != nil {
 		return violation(prop, "open/error", "%v", err)
 	}
-	defer opened.Close()
+	openedClosed := false
+	defer func() {
+		if !openedClosed {
+			opened.Close()
+		}
+	}()
 	mm := opened.(*zap.Segment)
 	if mm.CRC() != binary.BigEndian.Uint32(data[len(data)-4:]) || mm.Version() != 16 || mm.ChunkMode() != effMode(c.ChunkMode) || mm.NumDocs() != want.Count {
 		return violation(prop, "open/footer-accessors", "CRC()=%08x Version()=%d ChunkMode()=%d NumDocs()=%d disagree with the file (mode %d, docs %d)", mm.CRC(), mm.Version(), mm.ChunkMode(), mm.NumDocs(), effMode(c.ChunkMode), want.Count)
@@ -153,7 +174,13 @@ func runPersistCase(c persistCase) *Violation {
 	if v := vectorEquivalence(prop, c.Batch, want, seg, opened); v != nil {
 		return v
 	}
-	return nil
+	// field names, terms and values taken from the opened segment are the caller's: they must
+	// outlive the segment (its file is unmapped by this Close)
+	if err := opened.Close(); err != nil {
+		return violation(prop, "open/close-error", "%v", err)
+	}
+	openedClosed = true
+	return afterClose(prop, memObs, mmObs)
 }
 
 var c04 = Check[persistCase]{
